@@ -36,6 +36,7 @@ class SimClock(object):
         self.reads = 0
         self.log = None         # list to append (kind, before, after) or None
         self.counts = {}
+        self.travel = 0.0       # sum of |clock movement| over all reads
         self.on_read = None     # callback(kind) for reach probes
         self.min_now = 86400.0 * 400
         self.max_now = 4.0e9
@@ -80,6 +81,7 @@ class SimClock(object):
         if self.now > self.max_now:
             self.now = self.max_now
         self.counts[kind] = self.counts.get(kind, 0) + 1
+        self.travel += abs(self.now - before)
         if self.log is not None:
             self.log.append((kind, before, self.now))
         if self.on_read is not None:
